@@ -17,8 +17,9 @@ line corrected (`parse_writeFixed_roundtrip_nolabels`).
 -/
 import SkVerif.Lemmas.TsRoundTrip
 import SkVerif.Lemmas.TsReject
+import SkVerif.Lemmas.TsFormats
 namespace SkVerif.C18
-open SkVerif.TsFile SkVerif.TsFile.Lem
+open SkVerif.TsFile SkVerif.TsFile.Lem SkVerif.TsFile.Spec
 
 /-! ### round trip -/
 
@@ -135,6 +136,34 @@ theorem roundtrip_preserves_instances_and_lengths (o : WOpts) (panel : List (Lis
   · simp
   · simp [List.map_map, Function.comp_def]
   · simp [hlen]
+
+/-! ### all file formats parse to the same panel -/
+
+/-- One labelled univariate data set rendered as `.ts` (by the writer), as non-relational `.arff` and as UCR
+`.tsv` (canonical renderings, Spec/TsFormats.lean): the three parsers return the SAME instances, lengths,
+order and values; `.arff` and `.tsv` return the same labels and `.ts` returns them lower-cased.
+Hypotheses beyond those of the round trip: tokens and labels contain no tab, labels no comma; no `.arff`
+line mentions `@data` / `relational` other than the `@data` line (such a line would be taken for a tag). -/
+theorem all_formats_parse_to_same_panel (o : WOpts) (header : List Str) (panel : List (List Str))
+    (vals : List Str) (ho : ValidOpts o) (hcl : o.classLabel ≠ [])
+    (hJ : strip (join [' '] o.classLabel) ≠ []) (hne : panel ≠ []) (hlen : vals.length = panel.length)
+    (hp : ∀ s ∈ panel, ValidSeries s ∧ ∀ t ∈ s, PlainTok t)
+    (hl : ∀ l ∈ vals, ValidLabel l ∧ PlainLabel l)
+    (hH : ∀ l ∈ header, ArffQuiet l ∧ '\n' ∉ l)
+    (hq : ∀ p ∈ List.zip panel vals, ArffQuiet (join [','] (p.1 ++ [p.2]))) :
+    ∃ X yTs yArff yTsv,
+      (write o panel vals).bind parseTs = .ok ⟨[X], some yTs⟩ ∧
+      parseArff true (renderArff header panel vals) = .ok ⟨[X], some yArff⟩ ∧
+      parseTsv (renderTsv panel vals) = .ok ⟨[X], some yTsv⟩ ∧
+      yArff = yTsv ∧ yTs = yArff.map lower ∧ X.length = panel.length := by
+  refine ⟨panel.map (·.map tokVal), vals.map (fun l => lower (strip l)), vals.map strip, vals.map strip,
+    parse_write_roundtrip_partial o panel vals ho hcl hJ hne hlen (fun s hs => (hp s hs).1)
+      (fun l h => (hl l h).1), ?_, parseTsv_render panel vals hlen hp (fun l h => (hl l h).2), rfl, ?_, by simp⟩
+  · apply parseArff_render header panel vals hne hlen hH
+    intro p hpz
+    have h1 := List.of_mem_zip hpz
+    exact ⟨(hp p.1 h1.1).1, (hl p.2 h1.2).2, hq p hpz⟩
+  · simp [List.map_map, Function.comp_def]
 
 /-! ### rejection of malformed files -/
 
@@ -258,6 +287,27 @@ theorem exVals_valid : ∀ l ∈ exVals, ValidLabel l := by
   simp only [exVals, List.mem_cons, List.not_mem_nil, or_false] at hl
   rcases hl with rfl | rfl <;> exact ⟨by decide, by decide, by decide⟩
 
+/-- what "the number a printed token denotes" means, on the token shapes pandas prints (fixed, padded,
+scientific, missing) and on non-numbers: `floatOf` is Python's `float()` as an exact rational -/
+theorem float_tokens_denote_decimal_values :
+    floatOf "-2.25".toList = some (.fin (-9/4)) ∧
+    floatOf "     0.000001".toList = some (.fin (1/1000000)) ∧
+    floatOf "123456.789000".toList = some (.fin (123456789/1000)) ∧
+    floatOf "1.5E+3".toList = some (.fin 1500) ∧
+    floatOf "-1.234568e-07".toList = some (.fin (-1234568/10000000000000)) ∧
+    floatOf " NaN ".toList = some .nan ∧ floatOf "-inf".toList = some (.inf true) ∧
+    floatOf "1.2.3".toList = none ∧ floatOf "".toList = none ∧ floatOf "1e".toList = none := by
+  decide +kernel
+
+/-- the round trip evaluated on the running example, values included -/
+theorem roundtrip_concrete_values :
+    (match (write exOpts exPanel exVals).bind parseTs with
+     | .ok p => decide (p = ⟨[[[.fin (3/2), .fin (-9/4), .fin 10],
+                               [.fin (1/1000000), .fin (123456789/1000), .fin 3]]],
+                             some ["a".toList, "b".toList]⟩)
+     | .error _ => false) = true := by
+  decide +kernel
+
 /-- the hypotheses of `parse_write_roundtrip_partial` are met by a concrete, non-trivial input … -/
 example : (write exOpts exPanel exVals).bind parseTs
     = .ok ⟨[exPanel.map (·.map tokVal)], some ["a".toList, "b".toList]⟩ :=
@@ -273,6 +323,25 @@ example : (writeFixed { exOpts with classLabel := [] } exPanel []).bind parseTs
     = .ok ⟨[exPanel.map (·.map tokVal)], none⟩ :=
   parse_writeFixed_roundtrip_nolabels _ exPanel
     { exOpts_valid with clNl := by decide } rfl (by decide) exPanel_valid
+
+/-- … and of the three-format theorem (tokens of `exPanel` with the header of a bundled `.arff` file) -/
+example : ∃ X yTs yArff yTsv,
+    (write exOpts exPanel exVals).bind parseTs = .ok ⟨[X], some yTs⟩ ∧
+    parseArff true (renderArff ["%comment".toList, "@relation r".toList, "@attribute a0 numeric".toList] exPanel exVals)
+      = .ok ⟨[X], some yArff⟩ ∧
+    parseTsv (renderTsv exPanel exVals) = .ok ⟨[X], some yTsv⟩ ∧
+    yArff = yTsv ∧ yTs = yArff.map lower ∧ X.length = exPanel.length :=
+  all_formats_parse_to_same_panel exOpts _ exPanel exVals exOpts_valid (by decide) (by decide) (by decide) rfl
+    (fun s hs => ⟨exPanel_valid s hs, by
+      intro t ht
+      simp only [exPanel, List.mem_cons, List.not_mem_nil, or_false] at hs
+      rcases hs with rfl | rfl <;>
+        (simp only [List.mem_cons, List.not_mem_nil, or_false] at ht
+         rcases ht with rfl | rfl | rfl <;> exact ⟨by decide⟩)⟩)
+    (fun l hl => ⟨exVals_valid l hl, by
+      simp only [exVals, List.mem_cons, List.not_mem_nil, or_false] at hl
+      rcases hl with rfl | rfl <;> exact ⟨by decide, by decide, by decide, by decide⟩⟩)
+    (by decide) (by decide)
 
 /-- the missing-tag theorem applies to the writer's label-free output -/
 example : ∃ e, parseTs ("@problemName p\n@timeStamps false\n@univariate true\n@class_label false\n@data\n1,2\n".toList)
